@@ -9,7 +9,7 @@ import json, os, subprocess, sys, time, random, glob
 import common, gen_pip
 
 HERE = os.path.dirname(os.path.abspath(__file__))
-COQ_FILES = ["PIP/PipSpec.v", "PIP/PipTree.v", "PIP/PipRef.v", "PIP/PipCuts.v"]
+COQ_FILES = ["PIP/PipSpec.v", "PIP/PipTree.v", "PIP/PipRef.v", "PIP/PipCuts.v", "PIP/PipCert.v"]
 FUEL = 64
 MAX_DEATHS = 12          # timeouts per batch after which the rest of the batch is not run
 MAX_VIOLATIONS = 6       # enough to show the property is broken; the run stops attributing after that
@@ -395,6 +395,14 @@ def process(chk, T, verdicts, bound, stats):
                                       "valuations_in_context": j.get("inctx"), "with_solution": j.get("sol")}
                   if key is not None and j.get("nodes", 0) > 1 else None)
         stats["shape:" + ("resolve" if v["step"] >= 2 else "fresh")] += 1
+        cert = j.get("certified", "not_tried")
+        stats["cert:" + cert] += 1
+        if cert == "yes":
+            if j.get("nodes", 0) > 1 or j.get("arts", 0) > 0:
+                stats["cert:yes_with_decisions_or_artificials"] += 1
+            if k in ("bottom_but_feasible", "solution_but_infeasible", "feasible_not_minimal", "infeasible_point"):
+                # a certified tree cannot be wrong on a sampled valuation: theorem tree_cert_sound vs lexmin_ref_exact
+                chk.broken.append(("certificate-vs-sampling", "tree certified for all valuations but judged %s: %s" % (k, v["snap"])))
         if j.get("arts", 0) > 0: stats["trees_with_artificial_parameters"] += 1
         if j.get("nodes", 0) > 1: stats["trees_with_decisions"] += 1
         if v["snap"]["big"] >= 0: stats["with_big_parameter"] += 1
@@ -429,7 +437,8 @@ def run(chk):
                     "judge glue (parsing, enumeration of valuations, comparison, classification); g++ harness printing the "
                     "tree through the public node interface; python generator/driver; Base/Sys.v rational oracle (proved)"]
     chk.assumptions += ["valuations are sampled from the box [0..B]^params (B=6 quick, 12 thorough) and the big parameter from "
-                        "%s: the all-valuations claim is carried per valuation by lexmin_ref_exact, not for the whole tree" % BIGVALS,
+                        "%s: the all-valuations claim is carried per valuation by lexmin_ref_exact; only the trees counted in "
+                        "trees_certified_for_all_valuations are covered for every valuation (tree_cert_sound)" % BIGVALS,
                         "the model of the tree is the documented spanning (PIP_Problem_defs.hh); coefficients on problem "
                         "variables and references to undeclared artificial parameters are reported as malformed trees",
                         "a valuation on which the reference search answers Unknown is counted as undecided, never as agreement"]
@@ -475,6 +484,8 @@ def run(chk):
     chk.extra["histogram"] = dict(stats)
     chk.extra["histories"] = done
     chk.extra["valuations_compared"] = stats["valuations"]
+    chk.extra["trees_certified_for_all_valuations"] = stats["cert:yes"]
+    chk.extra["trees_certificate_attempted"] = stats["cert:yes"] + stats["cert:no"] + stats["cert:gave_up"]
     chk.extra["explanation"] = ("per valuation: Pip.eval_tree (extracted) on the tree printed by the library vs Pip.lexmin_ref "
                                 "(extracted, proved exact); failures are attributed by differential runs (fresh object, "
                                 "other strategy settings) before being matched against known findings")
